@@ -4,7 +4,8 @@
      (1) the reference control structure `pipe_control` over the model's stage order, for EVERY interpretation of the
          stages (src_dec_process_msg_is_pipe / src_enc_process_msg_is_pipe): stage after stage in that order, the chain
          ends at the first failing stage, m_msg_reset unless the error is exempt, m_msg_send, and replay_remove exactly
-         when the send failed and every stage had succeeded;
+         when the send failed, every stage had succeeded AND the request's c->is_replay_new is set (the replay stage
+         added the record itself);
      (2) and CredModel's dec_process + dec_rollback (and enc_process) ARE pipe_control over the model's stage functions
          (dec_process_is_pipe, enc_process_is_pipe), so that
      (3) the translated source function, run over the model's stage functions, is the model
@@ -35,14 +36,19 @@ Fixpoint run_chain {S : Type} (ops : pipe_ops S) (names : list string) (s : S) :
   end.
 
 (* after the chain: sanitise the reply unless the error is exempt; send; take the replay record back when the reply
-   of a SUCCESSFUL request could not be sent (only where `unplay` says the function owns a replay record) *)
-Definition pipe_finish {S : Type} (ops : pipe_ops S) (exempt : N -> bool) (unplay : bool) (ok : bool) (s : S) : Z * S :=
+   of a SUCCESSFUL request could not be sent and the request's bit `unplay = Some member` of struct munge_cred is set
+   (the request added the record itself); None: the function owns no replay record *)
+Definition owns_record {S : Type} (ops : pipe_ops S) (unplay : option string) (s : S) : bool :=
+  match unplay with Some f => negb (op_cred ops f s =? 0)%Z | None => false end.
+
+Definition pipe_finish {S : Type} (ops : pipe_ops S) (exempt : N -> bool) (unplay : option string) (ok : bool) (s : S)
+  : Z * S :=
   let s := if negb ok && negb (exempt (m_err (op_msg ops s))) then op_reset ops s else s in
   let '(v, s) := op_send ops s in
   if (v =? Z.of_N e_success)%Z then ((if ok then 0 else -1)%Z, s)
-  else ((-1)%Z, if ok && unplay then op_unplay ops s else s).
+  else ((-1)%Z, if ok && owns_record ops unplay s then op_unplay ops s else s).
 
-Definition pipe_control {S : Type} (ops : pipe_ops S) (names : list string) (exempt : N -> bool) (unplay : bool)
+Definition pipe_control {S : Type} (ops : pipe_ops S) (names : list string) (exempt : N -> bool) (unplay : option string)
            (s : S) : Z * S :=
   let '(ok, s) := run_chain ops names s in pipe_finish ops exempt unplay ok s.
 
@@ -80,7 +86,7 @@ Ltac chain_stage :=
 Ltac chain_consts := cbn [Z.eqb Z.opp negb andb].
 
 Ltac chain_tail :=
-  unfold pipe_finish; cbn [negb andb]; cbn beta iota zeta; chain_consts; rewrite ?soft_err_z;
+  unfold pipe_finish, owns_record; cbn [negb andb]; cbn beta iota zeta; chain_consts; rewrite ?soft_err_z;
   repeat (match goal with
           | |- context [if negb ?b then _ else _] => destruct b
           | |- context [if ?b then _ else _] => destruct b
@@ -92,7 +98,7 @@ Ltac chain_tail :=
 (* THE SOURCE'S dec_process_msg IS pipe_control: for every interpretation of the stage functions, of the reset, of the
    send and of replay_remove *)
 Theorem src_dec_process_msg_is_pipe : forall (S : Type) (ops : pipe_ops S) (s : S),
-  src_dec_process_msg ops s = pipe_control ops dec_stage_order soft_err true s.
+  src_dec_process_msg ops s = pipe_control ops dec_stage_order soft_err (Some "is_replay_new"%string) s.
 Proof.
   intros S ops s. unfold src_dec_process_msg, pipe_control, dec_stage_order. cbn [run_chain].
   do 14 (chain_stage; [chain_tail|]).
@@ -101,7 +107,7 @@ Qed.
 
 (* ... and enc_process_msg: every failure is sanitised, there is no replay record to take back *)
 Theorem src_enc_process_msg_is_pipe : forall (S : Type) (ops : pipe_ops S) (s : S),
-  src_enc_process_msg ops s = pipe_control ops enc_stage_order (fun _ => false) false s.
+  src_enc_process_msg ops s = pipe_control ops enc_stage_order (fun _ => false) None s.
 Proof.
   intros S ops s. unfold src_enc_process_msg, pipe_control, enc_stage_order. cbn [run_chain].
   do 13 (chain_stage; [chain_tail|]).
@@ -111,13 +117,15 @@ Qed.
 (* ==================================================================== *)
 (* 2. the source skeletons over ABSTRACT stage outcomes                 *)
 (* ==================================================================== *)
-(* `fail n = Some e`: stage n fails and leaves error code e in the message; None: it succeeds.  The state records which
-   stages ran, whether the reply was sanitised, sent, and whether the replay record was taken back. *)
+(* `fail n = Some e`: stage n fails and leaves error code e in the message; None: it succeeds.  `added`: the value of
+   the request's c->is_replay_new when the tail reads it (the replay stage added the record itself).  The state records
+   which stages ran, whether the reply was sanitised, sent, and whether the replay record was taken back. *)
 Record tstate := { t_log : list string; t_err : N; t_reset : bool; t_sent : bool; t_unplayed : bool }.
 Definition t0 : tstate := {| t_log := []; t_err := 0; t_reset := false; t_sent := false; t_unplayed := false |}.
 
-Definition trace_ops (fail : string -> option N) (send_ok : bool) : pipe_ops tstate := {|
+Definition trace_ops (fail : string -> option N) (added send_ok : bool) : pipe_ops tstate := {|
   op_msg := fun s => msg0 <| m_err := t_err s |>;
+  op_cred := fun _ _ => b2z added;
   op_stage := fun n s =>
     match fail n with
     | Some e => ((if String.eqb n "cred_create" then 0 else -1)%Z,
@@ -146,8 +154,8 @@ Proof. unfold stage_failed. destruct (String.eqb n "cred_create"); reflexivity. 
 Lemma stage_failed_ok n : stage_failed n 1%Z = false.
 Proof. unfold stage_failed. destruct (String.eqb n "cred_create"); reflexivity. Qed.
 
-Lemma run_chain_trace fail so names : forall s,
-  run_chain (trace_ops fail so) names s =
+Lemma run_chain_trace fail ad so names : forall s,
+  run_chain (trace_ops fail ad so) names s =
   (match snd (upto fail names) with None => true | Some _ => false end,
    {| t_log := t_log s ++ fst (upto fail names);
       t_err := match snd (upto fail names) with None => t_err s | Some e => e end;
@@ -160,47 +168,51 @@ Proof.
     + rewrite stage_failed_ok, IH. destruct (upto fail r) as [l e]. cbn. rewrite <- app_assoc. reflexivity.
 Qed.
 
-Definition outcomes (names : list string) (exempt : N -> bool) (unplay : bool) (fail : string -> option N)
-           (send_ok : bool) : Z * tstate :=
+Definition outcomes (names : list string) (exempt : N -> bool) (unplay : option string) (fail : string -> option N)
+           (added send_ok : bool) : Z * tstate :=
   let '(l, e) := upto fail names in
   ((match e with None => if send_ok then 0 else -1 | Some _ => -1 end)%Z,
    {| t_log := l;
       t_err := match e with None => 0 | Some e => e end;
       t_reset := match e with None => false | Some e => negb (exempt e) end;
       t_sent := true;
-      t_unplayed := negb send_ok && unplay && match e with None => true | Some _ => false end |}).
+      t_unplayed := negb send_ok && (match unplay with Some _ => added | None => false end)
+                    && match e with None => true | Some _ => false end |}).
 
-Lemma pipe_control_outcomes names exempt unplay fail so :
-  pipe_control (trace_ops fail so) names exempt unplay t0 = outcomes names exempt unplay fail so.
+Lemma pipe_control_outcomes names exempt unplay fail ad so :
+  pipe_control (trace_ops fail ad so) names exempt unplay t0 = outcomes names exempt unplay fail ad so.
 Proof.
   unfold pipe_control, outcomes. rewrite run_chain_trace. destruct (upto fail names) as [l [e|]]; cbn.
-  - destruct (exempt e), so, unplay; reflexivity.
-  - destruct so, unplay; reflexivity.
+  - destruct (exempt e), so, unplay, ad; reflexivity.
+  - destruct so, unplay, ad; reflexivity.
 Qed.
 
 (* dec_process_msg, read from the source: the stages run in the model's order up to the first failing one and no
    further; the reply is sanitised exactly for a failure whose code is not expired/rewound/replayed; the reply is always
-   sent; replay_remove is called EXACTLY when the send failed and every stage had succeeded *)
-Theorem src_dec_outcomes : forall (fail : string -> option N) (send_ok : bool),
-  src_dec_process_msg (trace_ops fail send_ok) t0 = outcomes dec_stage_order soft_err true fail send_ok.
+   sent; replay_remove is called EXACTLY when the send failed, every stage had succeeded and the request added the
+   record itself *)
+Theorem src_dec_outcomes : forall (fail : string -> option N) (added send_ok : bool),
+  src_dec_process_msg (trace_ops fail added send_ok) t0 =
+  outcomes dec_stage_order soft_err (Some "is_replay_new"%string) fail added send_ok.
 Proof. intros. rewrite src_dec_process_msg_is_pipe. apply pipe_control_outcomes. Qed.
 
-Theorem src_enc_outcomes : forall (fail : string -> option N) (send_ok : bool),
-  src_enc_process_msg (trace_ops fail send_ok) t0 = outcomes enc_stage_order (fun _ => false) false fail send_ok.
+Theorem src_enc_outcomes : forall (fail : string -> option N) (added send_ok : bool),
+  src_enc_process_msg (trace_ops fail added send_ok) t0 = outcomes enc_stage_order (fun _ => false) None fail added send_ok.
 Proof. intros. rewrite src_enc_process_msg_is_pipe. apply pipe_control_outcomes. Qed.
 
 Definition all_succeed (fail : string -> option N) (names : list string) : bool :=
   match snd (upto fail names) with None => true | Some _ => false end.
 
-Corollary src_dec_unplay_iff : forall fail send_ok,
-  t_unplayed (snd (src_dec_process_msg (trace_ops fail send_ok) t0)) = negb send_ok && all_succeed fail dec_stage_order.
+Corollary src_dec_unplay_iff : forall fail added send_ok,
+  t_unplayed (snd (src_dec_process_msg (trace_ops fail added send_ok) t0)) =
+  negb send_ok && all_succeed fail dec_stage_order && added.
 Proof.
   intros. rewrite src_dec_outcomes. unfold outcomes, all_succeed.
-  destruct (upto fail dec_stage_order) as [l [e|]]; cbn; destruct send_ok; reflexivity.
+  destruct (upto fail dec_stage_order) as [l [e|]]; cbn; destruct send_ok, added; reflexivity.
 Qed.
 
-Corollary src_enc_never_unplays : forall fail send_ok,
-  t_unplayed (snd (src_enc_process_msg (trace_ops fail send_ok) t0)) = false.
+Corollary src_enc_never_unplays : forall fail added send_ok,
+  t_unplayed (snd (src_enc_process_msg (trace_ops fail added send_ok) t0)) = false.
 Proof.
   intros. rewrite src_enc_outcomes. unfold outcomes.
   destruct (upto fail enc_stage_order) as [l [e|]]; cbn; destruct send_ok; reflexivity.
@@ -208,11 +220,11 @@ Qed.
 
 (* the checks of a decode, in the order the source runs them: authorization before the time window before the replay
    cache, which is last; MAC before decompression before the inner unpack *)
-Corollary src_dec_stage_order : forall send_ok,
-  t_log (snd (src_dec_process_msg (trace_ops (fun _ => None) send_ok) t0)) = dec_stage_order.
+Corollary src_dec_stage_order : forall added send_ok,
+  t_log (snd (src_dec_process_msg (trace_ops (fun _ => None) added send_ok) t0)) = dec_stage_order.
 Proof. intros. rewrite src_dec_outcomes. reflexivity. Qed.
-Corollary src_enc_stage_order : forall send_ok,
-  t_log (snd (src_enc_process_msg (trace_ops (fun _ => None) send_ok) t0)) = enc_stage_order.
+Corollary src_enc_stage_order : forall added send_ok,
+  t_log (snd (src_enc_process_msg (trace_ops (fun _ => None) added send_ok) t0)) = enc_stage_order.
 Proof. intros. rewrite src_enc_outcomes. reflexivity. Qed.
 
 (* ==================================================================== *)
@@ -220,23 +232,26 @@ Proof. intros. rewrite src_enc_outcomes. reflexivity. Qed.
 (*    over the model's stage functions                                   *)
 (* ==================================================================== *)
 (* the state of one decode request: the message, the credential aux data the stages hand to each other (struct
-   munge_cred: unarmored body, unpacked outer part, decrypted inner part) and the replay hash *)
-Record dst := { d_msg : msg; d_body : bytes; d_out : outer_out; d_plain : option bytes; d_inner : bytes; d_rs : rstate }.
+   munge_cred: unarmored body, unpacked outer part, decrypted inner part, and the bit is_replay_new) and the replay hash *)
+Record dst := { d_msg : msg; d_body : bytes; d_out : outer_out; d_plain : option bytes; d_inner : bytes; d_rs : rstate; d_new : bool }.
 Definition out0 : outer_out := {| oo_msg := msg0; oo_outer := []; oo_iv := []; oo_tag := []; oo_inner := [] |}.
+(* cred_create: calloc - nothing decoded yet, c->is_replay_new = 0 *)
 Definition dinit (m : msg) (rs : rstate) : dst :=
-  {| d_msg := m; d_body := []; d_out := out0; d_plain := None; d_inner := []; d_rs := rs |}.
+  {| d_msg := m; d_body := []; d_out := out0; d_plain := None; d_inner := []; d_rs := rs; d_new := false |}.
 Definition with_msg (s : dst) (m : msg) : dst :=
-  {| d_msg := m; d_body := d_body s; d_out := d_out s; d_plain := d_plain s; d_inner := d_inner s; d_rs := d_rs s |}.
+  {| d_msg := m; d_body := d_body s; d_out := d_out s; d_plain := d_plain s; d_inner := d_inner s; d_rs := d_rs s; d_new := d_new s |}.
 Definition with_body (s : dst) (b : bytes) : dst :=
-  {| d_msg := d_msg s; d_body := b; d_out := d_out s; d_plain := d_plain s; d_inner := d_inner s; d_rs := d_rs s |}.
+  {| d_msg := d_msg s; d_body := b; d_out := d_out s; d_plain := d_plain s; d_inner := d_inner s; d_rs := d_rs s; d_new := d_new s |}.
 Definition with_out (s : dst) (o : outer_out) : dst :=
-  {| d_msg := d_msg s; d_body := d_body s; d_out := o; d_plain := d_plain s; d_inner := d_inner s; d_rs := d_rs s |}.
+  {| d_msg := d_msg s; d_body := d_body s; d_out := o; d_plain := d_plain s; d_inner := d_inner s; d_rs := d_rs s; d_new := d_new s |}.
 Definition with_plain (s : dst) (p : option bytes) : dst :=
-  {| d_msg := d_msg s; d_body := d_body s; d_out := d_out s; d_plain := p; d_inner := d_inner s; d_rs := d_rs s |}.
+  {| d_msg := d_msg s; d_body := d_body s; d_out := d_out s; d_plain := p; d_inner := d_inner s; d_rs := d_rs s; d_new := d_new s |}.
 Definition with_inner (s : dst) (i : bytes) : dst :=
-  {| d_msg := d_msg s; d_body := d_body s; d_out := d_out s; d_plain := d_plain s; d_inner := i; d_rs := d_rs s |}.
+  {| d_msg := d_msg s; d_body := d_body s; d_out := d_out s; d_plain := d_plain s; d_inner := i; d_rs := d_rs s; d_new := d_new s |}.
 Definition with_rs (s : dst) (rs : rstate) : dst :=
-  {| d_msg := d_msg s; d_body := d_body s; d_out := d_out s; d_plain := d_plain s; d_inner := d_inner s; d_rs := rs |}.
+  {| d_msg := d_msg s; d_body := d_body s; d_out := d_out s; d_plain := d_plain s; d_inner := d_inner s; d_rs := rs; d_new := d_new s |}.
+Definition with_new (s : dst) (b : bool) : dst :=
+  {| d_msg := d_msg s; d_body := d_body s; d_out := d_out s; d_plain := d_plain s; d_inner := d_inner s; d_rs := d_rs s; d_new := b |}.
 
 Definition ok (s : dst) : Z * dst := (0%Z, s).
 Definition ko (s : dst) (m : msg) : Z * dst := ((-1)%Z, with_msg s m).
@@ -315,7 +330,7 @@ Definition st_validate_replay (s : dst) : Z * dst :=
   let k := cred_rkey (oo_tag (d_out s)) m in
   if r_mem k (d_rs s) then
     if replay_exempt cf m then ok s else ko s (set_err m e_cred_replayed None)
-  else ok (with_rs s (k :: d_rs s)).
+  else ok (with_new (with_rs s (k :: d_rs s)) true).        (* inserted by this request: c->is_replay_new = 1 *)
 
 Definition st_cred_create (s : dst) : Z * dst := (1%Z, s).     (* a pointer that is not NULL: allocation failure is not modelled *)
 
@@ -339,6 +354,7 @@ Definition dec_stage (n : string) (s : dst) : Z * dst :=
 (* send_ok: whether m_msg_send delivers the reply *)
 Definition dec_ops (send_ok : bool) : pipe_ops dst := {|
   op_msg := d_msg;
+  op_cred := fun f s => if String.eqb f "is_replay_new" then b2z (d_new s) else 0%Z;
   op_stage := dec_stage;
   op_reset := fun s => with_msg s (msg_reset (d_msg s));
   op_send := fun s => ((if send_ok then 0 else Z.of_N e_socket)%Z, s);
@@ -378,7 +394,7 @@ Qed.
 (* what the tail of the skeleton does with a failed request: the model's dec_finish; the replay hash is not touched *)
 Lemma finish_failed so (s : dst) :
   m_err (d_msg s) <> 0 ->
-  pipe_finish (dec_ops so) soft_err true false s = ((-1)%Z, with_msg s (dec_finish (d_msg s))).
+  pipe_finish (dec_ops so) soft_err (Some "is_replay_new"%string) false s = ((-1)%Z, with_msg s (dec_finish (d_msg s))).
 Proof.
   intros Hnz. unfold pipe_finish, dec_finish. cbn [negb andb dec_ops op_msg op_reset op_send op_unplay].
   apply N.eqb_neq in Hnz. change e_success with 0. rewrite Hnz. cbn [negb andb].
@@ -386,9 +402,10 @@ Proof.
 Qed.
 
 Lemma finish_succeeded so (s : dst) :
-  pipe_finish (dec_ops so) soft_err true true s =
-  if so then (0%Z, s) else ((-1)%Z, with_rs s (r_remove (cred_rkey (oo_tag (d_out s)) (d_msg s)) (d_rs s))).
-Proof. unfold pipe_finish. destruct so; reflexivity. Qed.
+  pipe_finish (dec_ops so) soft_err (Some "is_replay_new"%string) true s =
+  if so then (0%Z, s)
+  else ((-1)%Z, if d_new s then with_rs s (r_remove (cred_rkey (oo_tag (d_out s)) (d_msg s)) (d_rs s)) else s).
+Proof. unfold pipe_finish. destruct so; [reflexivity|]. cbn. destruct (d_new s); reflexivity. Qed.
 
 Ltac eval_failed :=
   match goal with
@@ -396,8 +413,8 @@ Ltac eval_failed :=
       let b := eval vm_compute in (stage_failed n v) in change (stage_failed n v) with b
   end.
 Ltac proj :=
-  cbv beta iota delta [dinit with_msg with_body with_out with_plain with_inner with_rs ok ko];
-  cbn [d_msg d_body d_out d_plain d_inner d_rs fst snd].
+  cbv beta iota delta [dinit with_msg with_body with_out with_plain with_inner with_rs with_new ok ko];
+  cbn [d_msg d_body d_out d_plain d_inner d_rs d_new fst snd].
 Ltac run_stage name f := change (dec_stage name) with f; unfold f; proj.
 Ltac stage_ok := proj; eval_failed; cbn beta iota.
 Ltac stage_ko nz :=
@@ -409,14 +426,22 @@ Ltac stage_done :=
   match goal with so : bool |- _ => destruct so end; cbn [dec_rollback]; repeat split; reflexivity.
 Ltac nz_code := apply set_err_nz; vm_compute; discriminate.
 
+(* the request is answered with success: the cache-independent part accepts and the record is absent, or present and
+   the retry exemption applies *)
+Definition dec_accepts (rs : rstate) (m : msg) : bool :=
+  match dec_pre hmac sha1 blk_dec zdecomp cf mem m pu pg now with
+  | inl _ => false
+  | inr (m', k) => negb (r_mem k rs) || replay_exempt cf m'
+  end.
+
 Theorem dec_process_is_pipe : forall (rs : rstate) (m : msg) (send_ok : bool),
-  let '(rc, s) := pipe_control (dec_ops send_ok) dec_stage_order soft_err true (dinit m rs) in
+  let '(rc, s) := pipe_control (dec_ops send_ok) dec_stage_order soft_err (Some "is_replay_new"%string) (dinit m rs) in
   let '(r, rs', k) := dec_process cf mem rs m pu pg now in
   d_msg s = r /\ d_rs s = (if send_ok then rs' else dec_rollback rs' k) /\
-  rc = (if send_ok then match k with Some _ => 0 | None => -1 end else -1)%Z.
+  rc = (if send_ok && dec_accepts rs m then 0 else -1)%Z.
 Proof.
   intros rs m so. unfold pipe_control, dec_stage_order. cbn [run_chain op_stage dec_ops].
-  unfold CredModel.dec_process.
+  unfold CredModel.dec_process, dec_accepts, RetryModel.dec_pre.
   run_stage "dec_validate_msg"%string st_validate_msg.
   destruct (m_data_len m =? 0) eqn:E1; [stage_ko nz_code|stage_ok].
   run_stage "cred_create"%string st_cred_create. stage_ok.
@@ -462,7 +487,7 @@ Theorem dec_process_is_source : forall (rs : rstate) (m : msg) (send_ok : bool),
   let '(rc, s) := src_dec_process_msg (dec_ops send_ok) (dinit m rs) in
   let '(r, rs', k) := dec_process cf mem rs m pu pg now in
   d_msg s = r /\ d_rs s = (if send_ok then rs' else dec_rollback rs' k) /\
-  rc = (if send_ok then match k with Some _ => 0 | None => -1 end else -1)%Z.
+  rc = (if send_ok && dec_accepts rs m then 0 else -1)%Z.
 Proof. intros. rewrite src_dec_process_msg_is_pipe. apply dec_process_is_pipe. Qed.
 
 (* RetryModel's use of dec_process / dec_rollback per attempt is the source's: a reply that munged could not send
@@ -576,17 +601,19 @@ Proof.
 Qed.
 
 (* the replay stage: replay_insert reports `already there` exactly when the key is in the hash, and inserts otherwise;
-   what the stage makes of that report - the retry exemption - is the source's dec_validate_replay *)
+   what the stage makes of that report - the retry exemption, and c->is_replay_new set exactly on an insert - is the
+   source's dec_validate_replay *)
 Theorem st_validate_replay_is_source : forall (s : dst) (en : Z),
   let k := cred_rkey (oo_tag (d_out s)) (d_msg s) in
   let present := r_mem k (d_rs s) in
   st_validate_replay s =
-  let '(v, s') := lift s (src_dec_validate_replay cf (if present then 1 else 0) en (d_msg s)) None in
-  (v, if present then s' else with_rs s' (k :: d_rs s')).
+  let '(r, c') := src_dec_validate_replay cf (if present then 1 else 0) en (b2z (d_new s)) (d_msg s) in
+  let '(v, s') := lift s r None in
+  (v, with_new (if present then s' else with_rs s' (k :: d_rs s')) (negb (c' =? 0)%Z)).
 Proof.
   intros s en k present. subst k present. rewrite dec_validate_replay_is_source. unfold st_validate_replay, lift.
   destruct (r_mem (cred_rkey (oo_tag (d_out s)) (d_msg s)) (d_rs s)); cbn.
-  - destruct (replay_exempt cf (d_msg s)); cbn; [rewrite with_msg_same; reflexivity|reflexivity].
+  - rewrite b2z_nz. destruct (replay_exempt cf (d_msg s)); cbn; [rewrite with_msg_same|]; destruct s; reflexivity.
   - rewrite with_msg_same. reflexivity.
 Qed.
 End Dec.
@@ -655,6 +682,7 @@ Definition enc_stage (n : string) (s : est) : Z * est :=
 
 Definition enc_ops (send_ok : bool) : pipe_ops est := {|
   op_msg := e_msg;
+  op_cred := fun _ _ => 0%Z;                                  (* enc_process_msg reads no member of the aux data *)
   op_stage := enc_stage;
   op_reset := fun s => {| e_msg := msg_reset (e_msg s); e_core := e_core s |};
   op_send := fun s => ((if send_ok then 0 else Z.of_N e_socket)%Z, s);
@@ -681,7 +709,7 @@ Ltac estage_ko :=
   match goal with so : bool |- _ => destruct so end; split; reflexivity.
 
 Theorem enc_process_is_pipe : forall (m : msg) (send_ok : bool),
-  let '(rc, s) := pipe_control (enc_ops send_ok) enc_stage_order (fun _ => false) false {| e_msg := m; e_core := None |} in
+  let '(rc, s) := pipe_control (enc_ops send_ok) enc_stage_order (fun _ => false) None {| e_msg := m; e_core := None |} in
   rsp_of (e_msg s) = enc_process cf m pu pg now salt ivr /\
   rc = (if send_ok && enc_succeeds m then 0 else -1)%Z.
 Proof.
